@@ -281,7 +281,7 @@ int main(int argc, char **argv) {
     long parent = getpid();
     g_dir = std::string(access("/dev/shm", W_OK) == 0 ? "/dev/shm" : "/tmp") + "/verif_reject_" + std::to_string(parent);
     mkdir(g_dir.c_str(), 0700);
-    int N = thorough ? 7 : 5, D = thorough ? 8 : 6;
+    int N = thorough ? 7 : 6, D = thorough ? 8 : 7;
     std::vector<Task> tasks;
     if (!opt.replay.empty()) {
         // replay: the case string names the part; re-run that whole (small) part and report
